@@ -91,11 +91,27 @@ theorem getAddress_print_line (n : Nat) (hn : n < 2 ^ 64) (t : Str) (ht : ∀ c,
 
 def plainChars : List Char := ['q', 'Q', '=', 'd', 'D', 'p', 'P', 'l', 'h', 'H', 'g', 'G', 'x', 'n', 'N', 'z']
 
+/-- a regex the printer writes as it is between `/`: no backslash, newline, `/`, `[` or `]` -/
+def plainRe (p : Str) : Bool := p.all fun c => c ≠ '\\' && c ≠ '\n' && c ≠ '/' && c ≠ '[' && c ≠ ']'
+
 def PAddr.plain : PAddr → Bool
   | .none => true
   | .last => true
   | .line n => decide (1 ≤ n ∧ n < 2 ^ 64)
-  | _ => false
+  | .re p ic => plainRe p && (!ic || p ≠ [])
+
+theorem pickupRex_plain (repl : Bool) (err : PErr) (p rest : Str) (hp : plainRe p = true) :
+    ∀ cfob acc, pickupRex '/' repl err (p ++ '/' :: rest) 0 0 cfob acc = .ok (acc ++ p, rest) := by
+  induction p with
+  | nil => intro cfob acc; rw [pickupRex.eq_def]; simp
+  | cons c r ih =>
+    intro cfob acc
+    simp [plainRe] at hp
+    have ih' := ih (by simpa [plainRe] using hp.2)
+    obtain ⟨⟨⟨⟨h1, h2⟩, h3⟩, h4⟩, h5⟩ := hp.1
+    simp only [List.cons_append]
+    rw [pickupRex.eq_def]
+    cases repl <;> simp [h1, h2, h3, h4, h5, ih']
 
 /-- a label name as it can be written: not empty, label characters only -/
 def labelName (n : Str) : Bool := n ≠ [] && n.all isLabChar
@@ -116,6 +132,19 @@ def escY1 (c : Char) : Str := if c = '/' ∨ c = '\\' then ['\\', c] else if c =
 
 def escY (xs : Str) : Str := xs.flatMap escY1
 
+/-- a replacement the printer writes as it is: no backslash, newline or `/` (`&` stays the special `&` it is in the compiled form) -/
+def plainRpl (p : Str) : Bool := p.all fun c => c ≠ '\\' && c ≠ '\n' && c ≠ '/'
+
+/-- the occurrence number as get_subst leaves it: at least 1 without g, at most 65535 -/
+def occOK (g : Bool) (occ : Nat) : Bool := decide (occ ≤ 65535) && (g || decide (1 ≤ occ))
+
+/-- is the occurrence number written? (without g the default 1 is not, with g the absent 0 is not) -/
+def occShown (g : Bool) (occ : Nat) : Bool := decide (occ ≠ (if g then 0 else 1))
+
+def printFlags (g p i k : Bool) (occ : Nat) : Str :=
+  (if g then ['g'] else []) ++ (if p then ['p'] else []) ++ (if i then ['i'] else []) ++ (if k then ['k'] else []) ++
+  (if occShown g occ then toDec occ else [])
+
 def POp.plain : POp → Bool
   | .simple c => plainChars.contains c
   | .branch c none => c = 'b' || c = 't'
@@ -126,7 +155,7 @@ def POp.plain : POp → Bool
   | .rbrace => true
   | .file c f => (c = 'r' || c = 'R' || c = 'w' || c = 'W') && fileName f
   | .trans _ => true
-  | _ => false
+  | .subst re rpl g _ _ _ occ w => plainRe re && plainRpl rpl && occOK g occ && w.isNone
 
 def PCmd.Plain (c : PCmd) : Prop :=
   c.a1.plain = true ∧ c.a2.plain = true ∧ (c.a1 = .none → c.a2 = .none) ∧ c.op.plain = true ∧ (c.op.isMark = true → c.a1 = .none)
@@ -139,7 +168,8 @@ def escText : Str → Str
 def printAddr : PAddr → Str
   | .last => ['$']
   | .line n => toDec n
-  | _ => []
+  | .re p ic => '/' :: (p ++ '/' :: (if ic then ['I'] else []))
+  | .none => []
 
 def printOp : POp → Str
   | .simple c => [c]
@@ -151,7 +181,7 @@ def printOp : POp → Str
   | .trans pairs => 'y' :: '/' :: (escY (pairs.map (·.1)) ++ '/' :: (escY (pairs.map (·.2)) ++ ['/']))
   | .lbrace => ['{']
   | .rbrace => ['}']
-  | _ => []
+  | .subst re rpl g p i k occ _ => 's' :: '/' :: (re ++ '/' :: (rpl ++ '/' :: printFlags g p i k occ))
 
 /-- negation, command character, newline -/
 def printBody (neg : Bool) (op : POp) : Str := (if neg then ['!'] else []) ++ printOp op ++ ['\n']
@@ -178,7 +208,8 @@ theorem plainOp_cases (op : POp) (h : op.plain = true) :
     op = .lbrace ∨ op = .rbrace ∨ (∃ n, labelName n = true ∧ op = .label n) ∨
     (∃ n, labelName n = true ∧ (op = .branch 'b' (some n) ∨ op = .branch 't' (some n))) ∨
     (∃ ch f, (ch = 'r' ∨ ch = 'R' ∨ ch = 'w' ∨ ch = 'W') ∧ fileName f = true ∧ op = .file ch f) ∨
-    (∃ pairs, op = .trans pairs) := by
+    (∃ pairs, op = .trans pairs) ∨
+    (∃ re rpl g p i k occ, (plainRe re = true ∧ plainRpl rpl = true ∧ occOK g occ = true) ∧ op = .subst re rpl g p i k occ none) := by
   cases op with
   | simple ch => left; simp_all [POp.plain]
   | branch ch l =>
@@ -200,8 +231,13 @@ theorem plainOp_cases (op : POp) (h : op.plain = true) :
     right; right; right; right; right; right; right; right; left
     simp [POp.plain] at h
     exact ⟨ch, f, by rcases h.1 with ((e | e) | e) | e <;> simp [e], h.2, rfl⟩
-  | trans pairs => right; right; right; right; right; right; right; right; right; exact ⟨pairs, rfl⟩
-  | _ => simp [POp.plain] at h
+  | trans pairs => right; right; right; right; right; right; right; right; right; left; exact ⟨pairs, rfl⟩
+  | subst re rpl g p i k occ w =>
+    right; right; right; right; right; right; right; right; right; right
+    simp [POp.plain] at h
+    cases w with
+    | some f => simp at h
+    | none => exact ⟨re, rpl, g, p, i, k, occ, ⟨h.1.1.1, h.1.1.2, h.1.2⟩, rfl⟩
 
 theorem transLoop_esc (limit : Option Nat) (xs rest acc : Str) (hl : ∀ n, limit = some n → acc.length + xs.length ≤ n) :
     transLoop '/' limit (escY xs ++ '/' :: rest) 0 acc = .ok (acc ++ xs, rest) := by
@@ -298,6 +334,62 @@ theorem getFile_print (f : Str) (h : fileName f = true) (rest : Str) :
   simp only [hsk, hat, hl]
   simp [h.1, terminate, skipSpaces, isSpace, isCmdTermC]
 
+theorem digit_facts (d : Char) (h : isDigit d = true) :
+    isSpace d = false ∧ d ≠ '\n' ∧ d ≠ ';' ∧ d ≠ '#' ∧ d ≠ '$' ∧ d ≠ ',' := by
+  refine ⟨?_, ?_, ?_, ?_, ?_, ?_⟩
+  · cases hsp : isSpace d with
+    | false => rfl
+    | true =>
+      simp [isSpace] at hsp
+      rcases hsp with (e | e) | e <;> (subst e; simp [isDigit] at h)
+  all_goals (intro e; subst e; simp [isDigit] at h)
+
+theorem pickupRex_plainRpl (err : PErr) (p rest : Str) (hp : plainRpl p = true) :
+    ∀ cfob acc, pickupRex '/' true err (p ++ '/' :: rest) 0 0 cfob acc = .ok (acc ++ p, rest) := by
+  induction p with
+  | nil => intro cfob acc; rw [pickupRex.eq_def]; simp
+  | cons c r ih =>
+    intro cfob acc
+    simp [plainRpl] at hp
+    have ih' := ih (by simpa [plainRpl] using hp.2)
+    obtain ⟨⟨h1, h2⟩, h3⟩ := hp.1
+    simp only [List.cons_append]
+    rw [pickupRex.eq_def]
+    simp [h1, h2, h3, ih']
+
+theorem optLoop_end (f : SFlags) (rest : Str) : optLoop ('\n' :: rest) f = .ok (f, rest) := by
+  rw [optLoop.eq_def]
+  simp [isDigit, terminate, skipSpaces, isSpace, isCmdTermC]
+
+theorem optLoop_g (f : SFlags) (x : Str) : optLoop ('g' :: x) f = optLoop x { f with g := true } := by
+  rw [optLoop.eq_def]; simp
+theorem optLoop_p (f : SFlags) (x : Str) : optLoop ('p' :: x) f = optLoop x { f with p := true } := by
+  rw [optLoop.eq_def]; simp
+theorem optLoop_i (f : SFlags) (x : Str) : optLoop ('i' :: x) f = optLoop x { f with i := true } := by
+  rw [optLoop.eq_def]; simp
+theorem optLoop_k (f : SFlags) (x : Str) : optLoop ('k' :: x) f = optLoop x { f with k := true } := by
+  rw [optLoop.eq_def]; simp
+
+theorem digit_not_flag (d : Char) (h : isDigit d = true) :
+    d ≠ 'p' ∧ d ≠ 'i' ∧ d ≠ 'I' ∧ d ≠ 'g' ∧ d ≠ 'k' ∧ d ≠ 'w' := by
+  refine ⟨?_, ?_, ?_, ?_, ?_, ?_⟩ <;> (intro e; subst e; simp [isDigit] at h)
+
+theorem optLoop_occ (f : SFlags) (n : Nat) (h1 : 1 ≤ n) (h2 : n ≤ 65535) (hf : f.occ = 0) (rest : Str) :
+    optLoop (toDec n ++ '\n' :: rest) f = .ok ({ f with occ := n }, rest) := by
+  obtain ⟨d, ds, e, hd⟩ := toDec_cons n
+  have hsp := span_digits (toDec n) ('\n' :: rest) (toDec_all n) (by intro c hc; simp at hc; subst hc; decide)
+  obtain ⟨g1, g2, g3, g4, g5, g6⟩ := digit_not_flag d hd
+  rw [e] at hsp ⊢
+  simp only [List.cons_append] at hsp ⊢
+  rw [optLoop.eq_def]
+  have hdrop : (ds ++ '\n' :: rest).dropWhile isDigit = '\n' :: rest := by
+    have := hsp.2; simp [List.dropWhile, hd] at this; exact this
+  have hv : digitsVal (d :: ds) = n := by rw [← e]; exact digitsVal_toDec n
+  simp only [g1, g2, g3, g4, g5, hd, hf, hsp.1, hv, hdrop]
+  have hn0 : n ≠ 0 := by omega
+  have hn1 : ¬ n > 65535 := by omega
+  simp [hn0, hn1, optLoop_end]
+
 theorem textLoop_esc (body rest acc : Str) :
     textLoop (escText body ++ '\n' :: rest) acc = (acc ++ body ++ ['\n'], true, rest) := by
   induction body generalizing acc with
@@ -360,21 +452,62 @@ theorem getBranchTarget_print (n : Str) (hn : labelName n = true) (rest : Str) :
   simp only [hsk, hat, hrun]
   simp [terminate, skipSpaces, isSpace, isCmdTermC]
 
+theorem getSubst_print (re rpl : Str) (g pf ic kf : Bool) (occ : Nat) (h1 : plainRe re = true) (h2 : plainRpl rpl = true)
+    (h3 : occOK g occ = true) (rest : Str) :
+    getSubst ('/' :: (re ++ '/' :: (rpl ++ '/' :: (printFlags g pf ic kf occ ++ '\n' :: rest)))) =
+      .ok (.subst re rpl g pf ic kf occ none, rest) := by
+  have e1 := pickupRex_plain false .ECMDIC re (rpl ++ '/' :: (printFlags g pf ic kf occ ++ '\n' :: rest)) h1 0 []
+  have e2 := pickupRex_plainRpl .ECMDIC rpl (printFlags g pf ic kf occ ++ '\n' :: rest) h2 0 []
+  simp only [List.nil_append] at e1 e2
+  simp [occOK] at h3
+  have hsk : skipSpaces (printFlags g pf ic kf occ ++ '\n' :: rest) = printFlags g pf ic kf occ ++ '\n' :: rest := by
+    obtain ⟨d, ds, ed, hd⟩ := toDec_cons occ
+    obtain ⟨q1, _⟩ := digit_facts d hd
+    by_cases hall : g = false ∧ pf = false ∧ ic = false ∧ kf = false
+    · obtain ⟨rfl, rfl, rfl, rfl⟩ := hall
+      by_cases hs : occShown false occ = true
+      · have : printFlags false false false false occ = d :: ds := by simp [printFlags, hs, ed]
+        rw [this]; exact skipSpaces_id d _ q1
+      · simp [printFlags, hs, skipSpaces, isSpace]
+    · cases g <;> cases pf <;> cases ic <;> cases kf <;> simp_all [printFlags, skipSpaces, isSpace]
+  have hfl : ∀ f : SFlags, f.occ = 0 →
+      optLoop (skipSpaces (printFlags g pf ic kf occ ++ '\n' :: rest)) f =
+        .ok ({ f with g := f.g || g, p := f.p || pf, i := f.i || ic, k := f.k || kf, occ := if occShown g occ then occ else 0 }, rest) := by
+    intro f hf
+    rw [hsk]
+    by_cases hs : occShown g occ = true
+    · have hocc1 : 1 ≤ occ := by
+        cases g <;> simp_all [occShown] <;> omega
+      cases g <;> cases pf <;> cases ic <;> cases kf <;>
+        simp [printFlags, hs, optLoop_g, optLoop_p, optLoop_i, optLoop_k] <;>
+        (rw [optLoop_occ _ occ hocc1 h3.1 (by simpa using hf)])
+    · have hs' : occShown g occ = false := by simpa using hs
+      cases g <;> cases pf <;> cases ic <;> cases kf <;>
+        simp [printFlags, hs', optLoop_g, optLoop_p, optLoop_i, optLoop_k, optLoop_end, hf] <;>
+        (try (cases f; simp_all))
+  have hfl0 := hfl {} rfl
+  unfold getSubst
+  simp [e1, e2, hfl0]
+  by_cases hs : occShown g occ = true
+  · simp [hs]; cases g <;> simp_all [occShown] <;> omega
+  · have hs' : occShown g occ = false := by simpa using hs
+    simp [hs']; cases g <;> simp_all [occShown]
+
 /-- where a command body starts: not a space, not `,`, not the start of an address -/
 def bodyStart (t : Str) : Prop :=
-  ∃ c r, t = c :: r ∧ isSpace c = false ∧ c ≠ ',' ∧ c ≠ '$' ∧ c ≠ '/' ∧ c ≠ '\\' ∧ isDigit c = false ∧ c ≠ '\n' ∧ c ≠ ';' ∧ c ≠ '#'
+  ∃ c r, t = c :: r ∧ isSpace c = false ∧ c ≠ ',' ∧ c ≠ '$' ∧ c ≠ '/' ∧ c ≠ '\\' ∧ isDigit c = false ∧ c ≠ '\n' ∧ c ≠ ';' ∧ c ≠ '#' ∧ c ≠ 'I'
 
 theorem printBody_start (neg : Bool) (op : POp) (h : op.plain = true) (rest : Str) : bodyStart (printBody neg op ++ rest) := by
-  cases neg <;> rcases plainOp_cases op h with ⟨ch, hch, rfl⟩ | rfl | rfl | ⟨ch, body, hch3, rfl⟩ | rfl | rfl | ⟨n, _, rfl⟩ | ⟨n, _, rfl | rfl⟩ | ⟨ch, f, hch4, hf, rfl⟩ | ⟨pairs, rfl⟩
+  cases neg <;> rcases plainOp_cases op h with ⟨ch, hch, rfl⟩ | rfl | rfl | ⟨ch, body, hch3, rfl⟩ | rfl | rfl | ⟨n, _, rfl⟩ | ⟨n, _, rfl | rfl⟩ | ⟨ch, f, hch4, hf, rfl⟩ | ⟨pairs, rfl⟩ | ⟨re, rpl, g, pf, ic, kf, occ, hsub, rfl⟩
   all_goals (try (simp [plainChars] at hch; rcases hch with rfl | rfl | rfl | rfl | rfl | rfl | rfl | rfl | rfl | rfl | rfl | rfl | rfl | rfl | rfl | rfl))
   all_goals (try (rcases hch3 with rfl | rfl | rfl))
   all_goals (try (rcases hch4 with rfl | rfl | rfl | rfl))
-  all_goals exact ⟨_, _, rfl, by decide, by decide, by decide, by decide, by decide, by decide, by decide, by decide, by decide⟩
+  all_goals exact ⟨_, _, rfl, by decide, by decide, by decide, by decide, by decide, by decide, by decide, by decide, by decide, by decide⟩
 
 theorem parseBody_print (tr : Traits) (hs : tr.strict = false) (a1 a2 : PAddr) (neg : Bool) (op : POp) (h : op.plain = true)
     (hm : op.isMark = true → a1 = .none) (rest : Str) :
     parseBody tr a1 a2 (printBody neg op ++ rest) = .ok ({ a1 := a1, a2 := a2, neg := neg, op := op }, cmdTail op rest) := by
-  cases neg <;> rcases plainOp_cases op h with ⟨ch, hch, rfl⟩ | rfl | rfl | ⟨ch, body, hch3, rfl⟩ | rfl | rfl | ⟨n, hn, rfl⟩ | ⟨n, hn, rfl | rfl⟩ | ⟨ch, f, hch4, hf, rfl⟩ | ⟨pairs, rfl⟩
+  cases neg <;> rcases plainOp_cases op h with ⟨ch, hch, rfl⟩ | rfl | rfl | ⟨ch, body, hch3, rfl⟩ | rfl | rfl | ⟨n, hn, rfl⟩ | ⟨n, hn, rfl | rfl⟩ | ⟨ch, f, hch4, hf, rfl⟩ | ⟨pairs, rfl⟩ | ⟨re, rpl, g, pf, ic, kf, occ, hsub, rfl⟩
   all_goals (try (simp [plainChars] at hch; rcases hch with rfl | rfl | rfl | rfl | rfl | rfl | rfl | rfl | rfl | rfl | rfl | rfl | rfl | rfl | rfl | rfl))
   all_goals (try (rcases hch3 with rfl | rfl | rfl))
   all_goals (try (rcases hch4 with rfl | rfl | rfl | rfl))
@@ -387,33 +520,44 @@ theorem parseBody_print (tr : Traits) (hs : tr.strict = false) (a1 a2 : PAddr) (
     done))
   all_goals (try (
     simp [printBody, printOp, parseBody, getCommand, skipSpaces, isSpace, bangs, cmdTail, simpleCmds, hs,
+      getSubst_print re rpl g pf ic kf occ hsub.1 hsub.2.1 hsub.2.2 rest]
+    done))
+  all_goals (try (
+    simp [printBody, printOp, parseBody, getCommand, skipSpaces, isSpace, bangs, cmdTail, simpleCmds, hs,
       getLabel_print tr n hn, getBranchTarget_print n hn]
     done))
   all_goals
     simp [printBody, printOp, parseBody, getCommand, terminate, skipSpaces, isSpace, isCmdTermC, cmdTail,
       simpleCmds, bangs, getBranchTarget, atCmdTerm, hs, getTextCmd, getText, textLoop_esc]
 
-theorem digit_facts (d : Char) (h : isDigit d = true) :
-    isSpace d = false ∧ d ≠ '\n' ∧ d ≠ ';' ∧ d ≠ '#' ∧ d ≠ '$' ∧ d ≠ ',' := by
-  refine ⟨?_, ?_, ?_, ?_, ?_, ?_⟩
-  · cases hsp : isSpace d with
-    | false => rfl
-    | true =>
-      simp [isSpace] at hsp
-      rcases hsp with (e | e) | e <;> (subst e; simp [isDigit] at h)
-  all_goals (intro e; subst e; simp [isDigit] at h)
-
 theorem getAddress_none (t : Str) (h : bodyStart t) : getAddress t = some (.none, t) := by
   obtain ⟨c, r, rfl, _, _, h3, h4, h5, h6, _⟩ := h
   simp [getAddress, h3, h4, h5, h6]
 
 theorem getAddress_printAddr (a : PAddr) (ha : a.plain = true) (hne : a ≠ .none) (t : Str)
-    (ht : ∀ c, t.head? = some c → isDigit c = false) : getAddress (printAddr a ++ t) = some (a, t) := by
+    (ht : ∀ c, t.head? = some c → isDigit c = false) (htI : t.head? ≠ some 'I') : getAddress (printAddr a ++ t) = some (a, t) := by
   cases a with
   | none => exact absurd rfl hne
   | last => simp [printAddr, getAddress]
   | line n => simp [PAddr.plain] at ha; exact getAddress_print_line n ha.2 t ht
-  | re p ic => simp [PAddr.plain] at ha
+  | re p ic =>
+    simp [PAddr.plain] at ha
+    have hpk := pickupRex_plain false .EREXIC p ((if ic then ['I'] else []) ++ t) ha.1 0 []
+    have e : printAddr (.re p ic) ++ t = '/' :: (p ++ '/' :: ((if ic then ['I'] else []) ++ t)) := by simp [printAddr]
+    rw [e]
+    simp only [List.nil_append] at hpk
+    simp [getAddress, isDigit, rexAddress, hpk]
+    by_cases hpe : p = []
+    · subst hpe
+      have : ic = false := by cases ic <;> simp_all
+      subst this; simp
+    · cases ic with
+      | true => simp [hpe]
+      | false =>
+        simp [hpe]
+        split
+        · simp at htI
+        · rfl
 
 /-- the first character of a printed address (there is one unless the address is none) -/
 theorem printAddr_head (a : PAddr) (ha : a.plain = true) (hne : a ≠ .none) :
@@ -425,7 +569,7 @@ theorem printAddr_head (a : PAddr) (ha : a.plain = true) (hne : a ≠ .none) :
     obtain ⟨d, ds, e, hd⟩ := toDec_cons n
     obtain ⟨f1, f2, f3, f4, _, f6⟩ := digit_facts d hd
     exact ⟨d, ds, e, f1, f2, f3, f4, f6⟩
-  | re p ic => simp [PAddr.plain] at ha
+  | re p ic => exact ⟨'/', p ++ '/' :: (if ic then ['I'] else []), rfl, by decide, by decide, by decide, by decide, by decide⟩
 
 theorem parseAddrs_print (a1 a2 : PAddr) (h1 : a1.plain = true) (h2 : a2.plain = true) (h12 : a1 = .none → a2 = .none)
     (t : Str) (ht : bodyStart t) :
@@ -433,6 +577,9 @@ theorem parseAddrs_print (a1 a2 : PAddr) (h1 : a1.plain = true) (h2 : a2.plain =
   have htd : ∀ c, t.head? = some c → isDigit c = false := by
     obtain ⟨c, r, rfl, _, _, _, _, _, h6, _⟩ := ht
     intro c' hc'; simp at hc'; subst hc'; exact h6
+  have htI : t.head? ≠ some 'I' := by
+    obtain ⟨c, r, rfl, _, _, _, _, _, _, _, _, _, h10⟩ := ht
+    simp; exact h10
   by_cases e1 : a1 = .none
   · have e2 := h12 e1
     subst e1; subst e2
@@ -443,7 +590,7 @@ theorem parseAddrs_print (a1 a2 : PAddr) (h1 : a1.plain = true) (h2 : a2.plain =
     · subst e2
       simp only [ite_true, List.append_nil]
       obtain ⟨c, r, rfl, hsp, hcomma, _⟩ := ht
-      have hA := getAddress_printAddr a1 h1 e1 (c :: r) htd
+      have hA := getAddress_printAddr a1 h1 e1 (c :: r) htd htI
       have hG : getAddr2 (c :: r) = .ok (.none, c :: r) := by
         unfold getAddr2
         rw [skipSpaces_id c r hsp]
@@ -454,9 +601,9 @@ theorem parseAddrs_print (a1 a2 : PAddr) (h1 : a1.plain = true) (h2 : a2.plain =
     · simp only [e2, ↓reduceIte]
       have hX : ∀ c, ((',' :: printAddr a2) ++ t).head? = some c → isDigit c = false := by
         intro c hc; simp at hc; subst hc; decide
-      have hA := getAddress_printAddr a1 h1 e1 ((',' :: printAddr a2) ++ t) hX
+      have hA := getAddress_printAddr a1 h1 e1 ((',' :: printAddr a2) ++ t) hX (by simp)
       obtain ⟨d, ds, ed, hdsp, _⟩ := printAddr_head a2 h2 e2
-      have hB := getAddress_printAddr a2 h2 e2 t htd
+      have hB := getAddress_printAddr a2 h2 e2 t htd htI
       have hsk : skipSpaces (printAddr a2 ++ t) = printAddr a2 ++ t := by
         rw [ed]; exact skipSpaces_id d (ds ++ t) hdsp
       have hG : getAddr2 ((',' :: printAddr a2) ++ t) = .ok (a2, t) := by
@@ -482,7 +629,7 @@ theorem printCmd_head (c : PCmd) (h : c.Plain) :
   by_cases e1 : a1 = .none
   · have e2 := h12 e1
     subst e1; subst e2
-    obtain ⟨ch, r, e, f1, _, _, _, _, _, f7, f8, f9⟩ := printBody_start neg op ho []
+    obtain ⟨ch, r, e, f1, _, _, _, _, _, f7, f8, f9, _⟩ := printBody_start neg op ho []
     refine ⟨ch, r, ?_, f1, f7, f8, f9⟩
     simpa [printCmd, printAddr] using e
   · obtain ⟨d, ds, ed, f1, f2, f3, f4, _⟩ := printAddr_head a1 h1 e1
@@ -525,7 +672,7 @@ theorem compLoop_print (tr : Traits) (hs : tr.strict = false) (cs : List PCmd) (
     have hlen0 : (printCmd c).length = r.length + 1 := by rw [e]; simp
     have hbody : 2 ≤ (printCmd c).length := by
       have : 1 ≤ (printOp c.op).length := by
-        rcases plainOp_cases c.op hc.2.2.2.1 with ⟨_, _, hop⟩ | hop | hop | ⟨_, _, _, hop⟩ | hop | hop | ⟨_, _, hop⟩ | ⟨_, _, hop | hop⟩ | ⟨_, _, _, _, hop⟩ | ⟨_, hop⟩ <;> simp [hop, printOp]
+        rcases plainOp_cases c.op hc.2.2.2.1 with ⟨_, _, hop⟩ | hop | hop | ⟨_, _, _, hop⟩ | hop | hop | ⟨_, _, hop⟩ | ⟨_, _, hop | hop⟩ | ⟨_, _, _, _, hop⟩ | ⟨_, hop⟩ | ⟨_, _, _, _, _, _, _, _, hop⟩ <;> simp [hop, printOp]
       simp [printCmd, printBody]; omega
     have hlen : (cmdTail c.op (printCmds rest)).length ≤ (r ++ printCmds rest).length := by
       have := cmdTail_length c.op hc.2.2.2.1 (printCmds rest) hns
@@ -538,7 +685,7 @@ theorem compLoop_print (tr : Traits) (hs : tr.strict = false) (cs : List PCmd) (
     rw [compLoop]
     simp only [h1, h2, h3, h4, hp]
     rw [accepts] at ha
-    rcases plainOp_cases c.op hc.2.2.2.1 with ⟨ch', _, hop⟩ | hop | hop | ⟨ch', b, _, hop⟩ | hop | hop | ⟨n, hn, hop⟩ | ⟨n, hn, hop | hop⟩ | ⟨ch', f, _, _, hop⟩ | ⟨prs, hop⟩
+    rcases plainOp_cases c.op hc.2.2.2.1 with ⟨ch', _, hop⟩ | hop | hop | ⟨ch', b, _, hop⟩ | hop | hop | ⟨n, hn, hop⟩ | ⟨n, hn, hop | hop⟩ | ⟨ch', f, _, _, hop⟩ | ⟨prs, hop⟩ | ⟨_, _, _, _, _, _, _, _, hop⟩
     all_goals (simp only [hop] at ha hlen ⊢)
     all_goals (simp only [cmdTail] at hlen ⊢)
     case inr.inr.inr.inr.inl =>
